@@ -3,6 +3,7 @@ import verif, outcommon as oc, json, os
 ctx=verif.Ctx("C10","quick",1)
 try:
     scen=oc.scenarios(os.environ.get("TIER","quick"), os.environ.get("FOCUS","close"))
+    if os.environ.get("SCEN"): scen=json.loads(os.environ["SCEN"])
     if os.environ.get("ONLY"): scen=[scen[int(i)] for i in os.environ["ONLY"].split(",")]
     print(len(scen),"scenarios")
     files,summ=oc.explore(ctx,scen,int(os.environ.get("PRE","1")), int(os.environ.get("MAXRUNS","0")))
